@@ -17,6 +17,7 @@ pub mod c06;
 pub mod c07;
 pub mod snipbatch;
 pub mod c08;
+pub mod c09;
 pub mod c10;
 pub mod c15;
 pub mod c17;
@@ -36,6 +37,7 @@ pub fn worker(prop: &str, case: &Value) -> Value {
         "C06" => c06::worker(case),
         "C07" => c07::worker(case),
         "C08" => c08::worker(case),
+        "C09" => c09::worker(case),
         "C10" => c10::worker(case),
         "C15" => c15::worker(case),
         "C17" => c17::worker(case),
@@ -58,6 +60,7 @@ pub fn drive(prop: &str, tier: &str) -> i32 {
         "C06" => c06::drive(tier),
         "C07" => c07::drive(tier),
         "C08" => c08::drive(tier),
+        "C09" => c09::drive(tier),
         "C10" => c10::drive(tier),
         "C15" => c15::drive(tier),
         "C17" => c17::drive(tier),
